@@ -2,15 +2,18 @@
 C12 — Replacement merges the two top populations as its name says.
 Property theorems only; helper lemmas are in `Proofs/C12.lean`.
 
-`F` is the carrier of objective values (any linear order); `w` is the witness permutation standing
-for the shuffle of `RandomReplacement` and for the tie order of `sort_unstable` in `MuPlusLambda`
+`F` is the carrier of objective values: a preorder in which any two values are comparable
+(`TotalLE F`) — antisymmetry is not assumed, so the theorems apply to `f64` without NaN, where `0.0`
+and `-0.0` are different values that compare equal.  `w` is the witness permutation standing for the
+shuffle of `RandomReplacement` and for the tie order of `sort_unstable` in `MuPlusLambda`
 (`Legal w n` : `w` is a permutation of `0 … n-1`).  All theorems hold for every legal witness.
 -/
 import MahfModel.Proofs.C12
+import MahfModel.Proofs.C12Uniform
 namespace MahfModel.Props.C12
 open MahfModel.Replacement
 
-variable {F : Type} [LinearOrder F]
+variable {F : Type} [Preorder F] [DecidableLE F] [DecidableLT F]
 
 /-- Every individual of both populations carries an objective value. -/
 def Evaluated (parents offspring : Pop F) : Prop := ∀ x ∈ parents ++ offspring, x.obj.isSome
@@ -96,7 +99,7 @@ theorem merge_eq_append (w : List Nat) (parents offspring : Pop F) :
 /-- `MuPlusLambda(μ)` keeps `min μ (a+b)` individuals, the kept and the discarded ones together are
 exactly parents + offspring, and no discarded individual is strictly better than a kept one —
 whatever order `sort_unstable` gives to equal keys. -/
-theorem mu_plus_lambda_k_best (mu : Nat) (w : List Nat) (parents offspring : Pop F)
+theorem mu_plus_lambda_k_best (tot : TotalLE F) (mu : Nat) (w : List Nat) (parents offspring : Pop F)
     (hw : Legal w (parents ++ offspring).length) (hev : Evaluated parents offspring) :
     ∃ kept discarded, replace (.muPlusLambda mu) w parents offspring = .ok kept ∧
       kept.length = min mu (parents.length + offspring.length) ∧
@@ -114,12 +117,12 @@ theorem mu_plus_lambda_k_best (mu : Nat) (w : List Nat) (parents offspring : Pop
   · rw [List.take_append_drop]
     exact (List.mergeSort_perm _ _).trans (permute_perm _ w hw)
   · have hs : List.Pairwise (fun a b => leInd a b = true) sorted :=
-      List.pairwise_mergeSort leInd_trans leInd_total _
+      List.pairwise_mergeSort leInd_trans (leInd_total tot) _
     rw [← List.take_append_drop mu sorted, List.pairwise_append] at hs
     intro x hx y hy a b ha hb
     have := hs.2.2 x hx y hy
     simp only [leInd, ha, hb, leO, decide_eq_true_eq] at this
-    exact not_lt.mpr this
+    exact not_lt_of_ge this
 
 /-- `RandomReplacement(μ)` keeps `min μ (a+b)` individuals, each taken from parents + offspring at
 most as often as it occurred there. -/
@@ -130,8 +133,85 @@ theorem random_replacement_subbag_len (mu : Nat) (w : List Nat) (parents offspri
   refine ⟨_, rfl, ?_, subBag_take_of_perm (permute_perm _ w hw) mu⟩
   simp only [List.length_take, permute_length _ w hw, List.length_append]
 
+/-- The property predicate cannot tell two orders of `MuPlusLambda`'s result apart: which
+individuals survive is fixed (up to ties), their order inside the population is not part of the
+statement.  This is what allows the correspondence check to compare `MuPlusLambda` results as
+multisets (`agreeUpToOrder`). -/
+theorem mu_plus_lambda_order_free {G : Type} [DecidableEq G] [LT G] [DecidableLT G] (mu : Nat)
+    (stack : List (Pop G)) (r r' : Pop G) (rest' : List (Pop G)) (h : r.Perm r') :
+    violation (.muPlusLambda mu) stack (r :: rest') .ok
+      = violation (.muPlusLambda mu) stack (r' :: rest') .ok := by
+  match stack with
+  | [] => simp [violation]
+  | [_] => simp [violation]
+  | offspring :: parents :: rest =>
+    simp only [violation]
+    rw [subBagB_perm _ h, h.length_eq, bagDiff_perm_right _ h,
+      noBetterDiscardedB_perm h (List.Perm.refl _)]
+
+/-- Soundness of the order-insensitive comparison used for `MuPlusLambda` in step K: whenever it
+accepts, the implementation's result is a permutation of the model's result over the same rest of
+the stack, and the property predicate gives the same verdict on both. -/
+theorem agree_up_to_order_sound (op : Op) (stack mstack stack' : List (Pop Bits)) (mout out : Outcome)
+    (h : agreeUpToOrder op mstack mout stack' out = true) :
+    (∃ mu m r rest, op = .muPlusLambda mu ∧ mout = .ok ∧ out = .ok ∧ mstack = m :: rest ∧
+      stack' = r :: rest ∧ m.Perm r) ∧
+    violation op stack stack' out = violation op stack mstack mout := by
+  unfold agreeUpToOrder at h
+  split at h
+  · next mu m mrest r rest =>
+    simp only [Bool.and_eq_true, decide_eq_true_eq] at h
+    obtain ⟨hrest, hp⟩ := h
+    subst hrest
+    have hp := permB_iff.1 hp
+    exact ⟨⟨mu, m, r, mrest, rfl, rfl, rfl, rfl, rfl, hp⟩,
+      (mu_plus_lambda_order_free mu stack m r mrest hp).symm⟩
+  · cases h
+
+/-- The second relaxation of step K (`agreeOutsideDomain`: the exact point at which `MuPlusLambda`
+panics on an unevaluated individual is not pinned) can only ever accept inputs outside the
+property's quantifier — a stack whose two top populations contain an unevaluated individual, on
+which the property predicate does not judge. -/
+theorem agree_outside_domain_is_outside (op : Op) (w : List Nat) (stack stack' : List (Pop Bits))
+    (out : Outcome) (h : agreeOutsideDomain op w stack stack' out = true) :
+    (∃ o p rest, stack = o :: p :: rest ∧ ∃ x ∈ p ++ o, x.obj = none) ∧
+    violation op stack stack' out = none := by
+  unfold agreeOutsideDomain at h
+  split at h
+  · next mu o p rest =>
+    simp only [Bool.and_eq_true] at h
+    have hany := h.1
+    refine ⟨⟨o, p, rest, rfl, ?_⟩, ?_⟩
+    · obtain ⟨x, hx, hn⟩ := List.any_eq_true.1 hany
+      exact ⟨x, hx, by simpa using hn⟩
+    · simp [violation, hany]
+  · cases h
+
+/-- `RandomReplacement(μ)` keeps exactly the individuals at the positions named by the first `μ`
+entries of the witness. -/
+theorem random_replacement_kept_positions (mu : Nat) (w : List Nat) (parents offspring : Pop F)
+    (hw : Legal w (parents ++ offspring).length) :
+    replace (.randomReplacement mu) w parents offspring
+      = .ok (permute (parents ++ offspring) (w.take mu)) := by
+  simp only [replace]
+  rw [permute_take _ w mu hw]
+
+/-- "μ *random* ones": the legal witnesses for `n` individuals are exactly the members of
+`witnesses n`, each listed once, `n!` in all — a uniform shuffle picks each with the same
+probability — and exactly `min μ n · (n-1)!` of them keep position `i` (written without division).
+So under a uniform shuffle every parent and every offspring survives with the same probability
+`min μ n / n`.  (That `SliceRandom::shuffle` is uniform is trusted and tied by the frequency oracle
+of the check, sites `RandomReplacement/freq`.) -/
+theorem random_replacement_uniform_survival (mu n i : Nat) (hi : i < n) :
+    (∀ w, w ∈ witnesses n ↔ Legal w n) ∧ (witnesses n).Nodup ∧
+    (witnesses n).length = n.factorial ∧
+    (witnesses n).countP (fun w => decide (i ∈ w.take mu)) * n = min mu n * n.factorial :=
+  ⟨fun _ => mem_witnesses, witnesses_nodup n, witnesses_length n, by
+    rw [countP_eq_keepCard]; exact keepCard_mul n mu i hi⟩
+
 /-- `KeepBetterAtIndex`: unequal sizes are an `Err`; otherwise position `i` of the result is the
-offspring iff it is strictly better than the parent at `i` — ties and worse offspring keep the parent. -/
+offspring iff it is strictly better than the parent at `i` — ties and worse offspring keep the parent
+(third conjunct: the second one read with `≤`). -/
 theorem keep_better_at_index (w : List Nat) (parents offspring : Pop F)
     (hev : Evaluated parents offspring) :
     (parents.length ≠ offspring.length →
@@ -140,7 +220,8 @@ theorem keep_better_at_index (w : List Nat) (parents offspring : Pop F)
       ∃ r, replace .keepBetterAtIndex w parents offspring = .ok r ∧ r.length = parents.length ∧
         ∀ i (hp : i < parents.length) (ho : i < offspring.length) (hr : i < r.length) (a b : F),
           parents[i].obj = some a → offspring[i].obj = some b →
-          (b < a → r[i] = offspring[i]) ∧ (a ≤ b → r[i] = parents[i])) := by
+          (b < a → r[i] = offspring[i]) ∧ (¬ b < a → r[i] = parents[i]) ∧
+          (a ≤ b → r[i] = parents[i])) := by
   constructor
   · intro hl; simp [replace, hl]
   · intro hl
@@ -149,14 +230,15 @@ theorem keep_better_at_index (w : List Nat) (parents offspring : Pop F)
     refine ⟨r, by simp [replace, hl, hr], keepBetter_length _ _ _ hl hr, ?_⟩
     intro i hp ho hri a b ha hb
     have := keepBetter_spec parents offspring r hr hl i hp ho hri a b ha hb
-    constructor
+    refine ⟨?_, ?_, ?_⟩
     · intro hlt; simp [this, hlt]
-    · intro hle; simp [this, not_lt.mpr hle]
+    · intro hnlt; simp [this, hnlt]
+    · intro hle; simp [this, not_lt_of_ge hle]
 
 /-- The executable predicate the correspondence check evaluates on the implementation's output
 (`violation … = none` ⇔ "C12 holds on this observation") is satisfied by the model on every stack,
 for every legal witness. -/
-theorem model_satisfies_predicate [DecidableEq F] (op : Op) (w : List Nat) (stack : List (Pop F))
+theorem model_satisfies_predicate [DecidableEq F] (tot : TotalLE F) (op : Op) (w : List Nat) (stack : List (Pop F))
     (hw : ∀ o p rest, stack = o :: p :: rest → Legal w (p ++ o).length) :
     violation op stack (step op w stack).1 (step op w stack).2 = none := by
   match stack, hw with
@@ -184,7 +266,7 @@ theorem model_satisfies_predicate [DecidableEq F] (op : Op) (w : List Nat) (stac
         | generational => simp_all [replace]
         | merge => simp_all [replace]
         | muPlusLambda mu =>
-          obtain ⟨kept, disc, h1, h2, h3, h4⟩ := mu_plus_lambda_k_best mu w parents offspring hw hev
+          obtain ⟨kept, disc, h1, h2, h3, h4⟩ := mu_plus_lambda_k_best tot mu w parents offspring hw hev
           rw [hr] at h1; injection h1 with h1; subst h1
           have hd := bagDiff_perm r disc _ h3
           have hnb : noBetterDiscardedB r (bagDiff (parents ++ offspring) r) = true := by
@@ -222,5 +304,18 @@ example : replace (.muPlusLambda 2) [2, 0, 3, 1] exParents exOffspring
 example : replace .keepBetterAtIndex [] exParents [⟨3, some 3⟩, ⟨4, some 3⟩]
     = .ok [⟨3, some 3⟩, ⟨2, some 3⟩] := by decide
 example : replace .keepBetterAtIndex [] exParents [] = .error .exec := by decide
+
+example : TotalLE Int := fun a b => Int.le_total a b
+example : Legal [2, 0, 1] 3 := by unfold Legal; decide
+/-- 3 individuals, μ = 2: 4 of the 6 witnesses keep position 1 (`4 · 3 = 2 · 3!`). -/
+example : (witnesses 3).countP (fun w => decide (1 ∈ w.take 2)) * 3 = 2 * 6 :=
+  (random_replacement_uniform_survival 2 3 1 (by omega)).2.2.2
+
+/-! `SZ` (Proofs/C12.lean): a carrier that is *not* a linear order — two different values tie. -/
+example : TotalLE SZ := fun a b => Int.le_total a.v b.v
+example : (⟨0, true⟩ : SZ) ≤ ⟨0, false⟩ ∧ (⟨0, false⟩ : SZ) ≤ ⟨0, true⟩ ∧ (⟨0, true⟩ : SZ) ≠ ⟨0, false⟩ := by
+  refine ⟨?_, ?_, by decide⟩ <;> exact Int.le_refl 0
+example : replace .keepBetterAtIndex [] [(⟨1, some ⟨0, false⟩⟩ : Ind SZ)] [⟨2, some ⟨0, true⟩⟩]
+    = .ok [⟨1, some ⟨0, false⟩⟩] := by decide
 
 end MahfModel.Props.C12
